@@ -27,9 +27,10 @@ CHECKS["C07"] = {
             "ChannelBind (n1,A),(n2,B),(n1,B),(n2,A),(n2,A2), Refresh of the allocation, clock advance to next deadline -/+1ns, -/+1s, by min-timeout/2} x 3 (permission,channel) timeout "
             "configurations on the real turn.Server in virtual time; after every event the response and a probe sweep in both directions "
             "(3 peers incl. same-IP-other-port, 2 channel numbers) are compared with the reference model whose entries live exactly one timeout "
-            "past the last successful install/refresh; then a drain through every remaining deadline at -1ns/+1ns.",
+            "past the last successful install/refresh; then a drain through every remaining deadline at -1ns/+1ns. Part sched (Engine B, <= 2/3 preemptions): a CreatePermission / ChannelBind that refreshes an existing entry 1 ns before its timer fires, callbacks yielding: if it is answered with success, data sent half a timeout later is relayed.",
     "parts": [A("vtx", "./checks/c07", "TestC07", budget={"quick": 90, "thorough": 1500}),
-              A("bfs", "./checks/c07", "TestC07BFS", tiers=["thorough"], budget={"thorough": 1500})],
+              A("bfs", "./checks/c07", "TestC07BFS", tiers=["thorough"], budget={"thorough": 1500}),
+              A("sched", "./checks/bsem", "TestC07Sched", overlay=True, gomaxprocs=1, budget={"quick": 90, "thorough": 900})],
 }
 
 SWEEP = ("after every event the response, Server.AllocationCount and a probe sweep (one Send indication per client x peer, one ChannelData per "
